@@ -115,6 +115,7 @@ fn alphabet(tier: Tier) -> Vec<Op> {
     if tier == Tier::Quick {
         v.push(Op::Add(2, 1, 0)); // C spelling replaces A
         v.push(Op::Add(0, 2, 0)); // empty content
+        v.push(Op::Add(3, 1, 4)); // position-adjusted key on a compressible (shrinking) content
     }
     for n in 0..4 {
         v.push(Op::Remove(n));
